@@ -34,6 +34,7 @@ pub struct World {
     pub fds: u8,         // 0 none, 1 fds 3..19 open on /dev/null, 2 fds 3..99 open
     pub script_mode: u8, // 0 0644 now, 1 0400, 2 0755, 3 0644 with mtime 1970, 4 0644 with mtime 2100
     pub uid: u8,         // 0 as the simulator (root), 1 nobody (65534:65534)
+    pub malloc_mode: u8, // allocator behaviour: 0 default, 1 tcache off (freed chunks are not handed straight back), 2 freed/fresh memory filled with a pattern, 3 both
     pub rlimit: u8,      // resource limits far above what any explored script needs: 0 none, 1 RLIMIT_AS 192 MiB, 2 RLIMIT_AS 1 GiB, 3 RLIMIT_CPU 60 s, 4 RLIMIT_NOFILE 260, 5 RLIMIT_FSIZE 4 MiB, 6 RLIMIT_DATA 128 MiB
     // directed dimensions: environment variables / relative files the program was seen asking for
     pub extra_env: Vec<(String, String)>,
@@ -43,7 +44,7 @@ pub struct World {
 pub const DIMS: &[&str] = &[
     "rand", "heap_pad", "env_pad", "stack", "malloc_tun", "cwd_name", "rel", "file_name", "spelling", "argv0",
     "env_kind", "locale", "rust_backtrace", "stdin", "stdout", "stderr", "merged", "decoys", "clock", "pid", "extra_env", "extra_files",
-    "env_bytes", "sig", "umask", "fds", "script_mode", "uid", "rlimit",
+    "env_bytes", "sig", "umask", "fds", "script_mode", "uid", "rlimit", "malloc_mode",
 ];
 
 impl World {
@@ -77,6 +78,7 @@ impl World {
             script_mode: 0,
             uid: 0,
             rlimit: 0,
+            malloc_mode: 0,
             extra_env: vec![],
             extra_files: vec![],
         }
@@ -106,6 +108,7 @@ impl World {
             "script_mode" => self.script_mode = 1 + rng.below(4) as u8,
             "uid" => self.uid = 1,
             "rlimit" => self.rlimit = 1 + rng.below(6) as u8,
+            "malloc_mode" => self.malloc_mode = 1 + rng.below(3) as u8,
             "stdout" => self.stdout = [1, 2, 3, 4, 5, 8][rng.usize_below(6)],
             "stderr" => self.stderr = [1, 2, 3, 4, 5, 8][rng.usize_below(6)],
             "merged" => self.merged = true,
@@ -152,6 +155,7 @@ impl World {
             "script_mode" => self.script_mode = 0,
             "uid" => self.uid = 0,
             "rlimit" => self.rlimit = 0,
+            "malloc_mode" => self.malloc_mode = 0,
             "extra_env" => self.extra_env = vec![],
             "extra_files" => self.extra_files = vec![],
             _ => {}
@@ -187,6 +191,7 @@ impl World {
             "script_mode" => self.script_mode.to_string(),
             "uid" => self.uid.to_string(),
             "rlimit" => self.rlimit.to_string(),
+            "malloc_mode" => self.malloc_mode.to_string(),
             "extra_env" => self.extra_env.len().min(3).to_string(),
             "extra_files" => self.extra_files.len().min(3).to_string(),
             _ => String::new(),
@@ -197,7 +202,7 @@ impl World {
     pub fn dim_cardinality(d: usize) -> u64 {
         match DIMS[d] {
             "rand" | "malloc_tun" | "merged" | "decoys" | "uid" => 1,
-            "heap_pad" | "stack" | "rust_backtrace" | "pid" | "sig" | "umask" => 3,
+            "heap_pad" | "stack" | "rust_backtrace" | "pid" | "sig" | "umask" | "malloc_mode" => 3,
             "file_name" => 4,
             "env_pad" | "rel" | "argv0" | "env_kind" | "clock" | "fds" => 2,
             "cwd_name" | "locale" | "stdin" | "script_mode" => 4,
@@ -259,7 +264,7 @@ impl World {
             "stdin": self.stdin, "stdout": self.stdout, "stderr": self.stderr,
             "merged": self.merged, "decoys": self.decoys,
             "clock": self.clock, "pid": self.pid, "clock_step_ms": self.clock_step_ms,
-            "env_bytes": self.env_bytes, "sig": self.sig, "umask": self.umask, "fds": self.fds, "script_mode": self.script_mode, "uid": self.uid, "rlimit": self.rlimit,
+            "env_bytes": self.env_bytes, "sig": self.sig, "umask": self.umask, "fds": self.fds, "script_mode": self.script_mode, "uid": self.uid, "rlimit": self.rlimit, "malloc_mode": self.malloc_mode,
             "extra_env": self.extra_env.iter().map(|(k, v)| json!([k, v])).collect::<Vec<_>>(),
             "extra_files": self.extra_files.iter().map(|(k, v)| json!([k, v])).collect::<Vec<_>>(),
         })
@@ -301,6 +306,7 @@ impl World {
         w.script_mode = u("script_mode").unwrap_or(0) as u8;
         w.uid = u("uid").unwrap_or(0) as u8;
         w.rlimit = u("rlimit").unwrap_or(0) as u8;
+        w.malloc_mode = u("malloc_mode").unwrap_or(0) as u8;
         let pairs = |k: &str| -> Vec<(String, String)> {
             j.get(k).and_then(J::as_array).map(|a| a.iter().filter_map(|x| Some((x.get(0)?.as_str()?.to_string(), x.get(1)?.as_str()?.to_string()))).collect()).unwrap_or_default()
         };
